@@ -56,9 +56,7 @@ package txresult
 //@   requires lb != nil
 //@   modifies big(addr(lb.Int))
 //@   callpre addBit: seq(caller_h) == sha3(seq(caller_log)) && len(caller_h) == 32
-//@   callpre addBit#0: idx == ((uint16(caller_h[0]) << 8) | uint16(caller_h[1])) & 2047
-//@   callpre addBit#1: idx == ((uint16(caller_h[2]) << 8) | uint16(caller_h[3])) & 2047
-//@   callpre addBit#2: idx == ((uint16(caller_h[4]) << 8) | uint16(caller_h[5])) & 2047
+//@   callpre addBit: 0 <= i && i < 3 && idx == ((uint16(caller_h[2 * i]) << 8) | uint16(caller_h[2 * i + 1])) & 2047
 //@   loop 0: unroll 3
 
 // the hashed entry of an indexed value is the position byte followed by the value
